@@ -422,34 +422,34 @@ def Triangle2.projectLoc (s : Triangle2 K) (pt : V2 K) (solid : Bool) : PP2 K ×
   let ap := pt.sub a
   let ab_ap := ab.dot ap
   let ac_ap := ac.dot ap
-  if decide (ab_ap ≤ 0) && decide (ac_ap ≤ 0) then (⟨V2.beq pt a, a⟩, TriLoc.vertex 0)
+  if ab_ap ≤ 0 ∧ ac_ap ≤ 0 then (⟨V2.beq pt a, a⟩, TriLoc.vertex 0)
   else
   let bp := pt.sub b
   let ab_bp := ab.dot bp
   let ac_bp := ac.dot bp
-  if decide (0 ≤ ab_bp) && decide (ac_bp ≤ ab_bp) then (⟨V2.beq pt b, b⟩, TriLoc.vertex 1)
+  if 0 ≤ ab_bp ∧ ac_bp ≤ ab_bp then (⟨V2.beq pt b, b⟩, TriLoc.vertex 1)
   else
   let cp := pt.sub c
   let ab_cp := ab.dot cp
   let ac_cp := ac.dot cp
-  if decide (0 ≤ ac_cp) && decide (ab_cp ≤ ac_cp) then (⟨V2.beq pt c, c⟩, TriLoc.vertex 2)
+  if 0 ≤ ac_cp ∧ ab_cp ≤ ac_cp then (⟨V2.beq pt c, c⟩, TriLoc.vertex 2)
   else
   let bc := c.sub b
   let n := ab.perp ac
   let vc := n * ab.perp ap
-  if decide (vc < 0) && decide (0 ≤ ab_ap) && decide (ab_bp ≤ 0) then
+  if vc < 0 ∧ 0 ≤ ab_ap ∧ ab_bp ≤ 0 then
     let v := ab_ap / ab.normSq
     let res := a.add (ab.smul v)
     (⟨V2.beq pt res, res⟩, TriLoc.edge 0 (1 - v) v)
   else
   let vb := -n * ac.perp cp
-  if decide (vb < 0) && decide (0 ≤ ac_ap) && decide (ac_cp ≤ 0) then
+  if vb < 0 ∧ 0 ≤ ac_ap ∧ ac_cp ≤ 0 then
     let w := ac_ap / ac.normSq
     let res := a.add (ac.smul w)
     (⟨V2.beq pt res, res⟩, TriLoc.edge 2 (1 - w) w)
   else
   let va := n * bc.perp bp
-  if decide (va < 0) && decide (0 ≤ ac_bp - ab_bp) && decide (0 ≤ ab_cp - ac_cp) then
+  if va < 0 ∧ 0 ≤ ac_bp - ab_bp ∧ 0 ≤ ab_cp - ac_cp then
     let w := bc.dot bp / bc.normSq
     let res := b.add (bc.smul w)
     (⟨V2.beq pt res, res⟩, TriLoc.edge 1 (1 - w) w)
@@ -488,34 +488,34 @@ def Triangle3.projectLoc (s : Triangle3 K) (pt : V3 K) (solid : Bool) : PP3 K ×
   let ap := pt.sub a
   let ab_ap := ab.dot ap
   let ac_ap := ac.dot ap
-  if decide (ab_ap ≤ 0) && decide (ac_ap ≤ 0) then (⟨V3.relEq a pt, a⟩, TriLoc.vertex 0)
+  if ab_ap ≤ 0 ∧ ac_ap ≤ 0 then (⟨V3.relEq a pt, a⟩, TriLoc.vertex 0)
   else
   let bp := pt.sub b
   let ab_bp := ab.dot bp
   let ac_bp := ac.dot bp
-  if decide (0 ≤ ab_bp) && decide (ac_bp ≤ ab_bp) then (⟨V3.relEq b pt, b⟩, TriLoc.vertex 1)
+  if 0 ≤ ab_bp ∧ ac_bp ≤ ab_bp then (⟨V3.relEq b pt, b⟩, TriLoc.vertex 1)
   else
   let cp := pt.sub c
   let ab_cp := ab.dot cp
   let ac_cp := ac.dot cp
-  if decide (0 ≤ ac_cp) && decide (ab_cp ≤ ac_cp) then (⟨V3.relEq c pt, c⟩, TriLoc.vertex 2)
+  if 0 ≤ ac_cp ∧ ab_cp ≤ ac_cp then (⟨V3.relEq c pt, c⟩, TriLoc.vertex 2)
   else
   let bc := c.sub b
   let n := ab.cross ac
   let vc := n.dot (ab.cross ap)
-  if decide (vc < 0) && decide (0 ≤ ab_ap) && decide (ab_bp ≤ 0) then
+  if vc < 0 ∧ 0 ≤ ab_ap ∧ ab_bp ≤ 0 then
     let v := ab_ap / ab.normSq
     let res := a.add (ab.smul v)
     (⟨V3.relEq res pt, res⟩, TriLoc.edge 0 (1 - v) v)
   else
   let vb := -(n.dot (ac.cross cp))
-  if decide (vb < 0) && decide (0 ≤ ac_ap) && decide (ac_cp ≤ 0) then
+  if vb < 0 ∧ 0 ≤ ac_ap ∧ ac_cp ≤ 0 then
     let w := ac_ap / ac.normSq
     let res := a.add (ac.smul w)
     (⟨V3.relEq res pt, res⟩, TriLoc.edge 2 (1 - w) w)
   else
   let va := n.dot (bc.cross bp)
-  if decide (va < 0) && decide (0 ≤ ac_bp - ab_bp) && decide (0 ≤ ab_cp - ac_cp) then
+  if va < 0 ∧ 0 ≤ ac_bp - ab_bp ∧ 0 ≤ ab_cp - ac_cp then
     let w := bc.dot bp / bc.normSq
     let res := b.add (bc.smul w)
     (⟨V3.relEq res pt, res⟩, TriLoc.edge 1 (1 - w) w)
